@@ -293,6 +293,10 @@ package scanner
 
 //@ func (*Scanner).scanEnumBody
 //@   inline
+// the deferred closure of readEnumWithJsc only acts when the schema library panics (assumed not to happen in the proof;
+// the closure turns such a fault into a diagnostic at the beginning of the body)
+//@ func (*Scanner).readEnumWithJsc$1
+//@   inline
 
 // kw(f) == 1: state f only runs after at least one lexeme has ended (lastEnd >= 0)
 //@ table kw(stepFunc) int : default=0
